@@ -8,6 +8,7 @@ import (
 	"regexp"
 	"sort"
 	"strings"
+	"sync"
 	"sync/atomic"
 	"testing"
 	"time"
@@ -845,3 +846,137 @@ var _ = register(&propSpec{
 })
 
 func TestC03Concurrent(t *testing.T) { runProp(t, "C03.concurrent") }
+
+// ---- C03.creators: the first templates of a set are created by several goroutines at once -------
+// (a web server compiles on first use). Bans added before must hold for every one of them, the set
+// must be frozen afterwards, and - under the race detector - the bookkeeping that freezes it must
+// not be a data race.
+
+type c03Creators struct {
+	Kind   string   `json:"kind"`   // tag | filter
+	Routes []string `json:"routes"` // one per goroutine
+	Lazy   bool     `json:"lazy"`   // the executed templates include another file by a computed name
+}
+
+func checkC03Creators(c any, r *Rec) error {
+	cs := c.(*c03Creators)
+	use, name, other := "{% lorem 2 w %}", "lorem", "{% templatetag openblock %}"
+	if cs.Kind == "filter" {
+		use, name, other = `{{ "x"|upper }}`, "upper", `{{ "X"|lower }}`
+	}
+	good := "[" + other + "{% include part %}]"
+	if !cs.Lazy {
+		good = "[" + other + `{% include "/part.tpl" %}]`
+	}
+	ld := newMemLoader(map[string]string{"/good.tpl": good, "/bad.tpl": "A" + use + "Z", "/part.tpl": "{{ n }}", "/badpart.tpl": use})
+	set := pongo2.NewSet("c03creators", ld)
+	var err error
+	if cs.Kind == "filter" {
+		err = set.BanFilter(name)
+	} else {
+		err = set.BanTag(name)
+	}
+	if err != nil {
+		return fmt.Errorf("ban before the first template refused: %v", err)
+	}
+	wantGood := "[{%0]"
+	if cs.Kind == "filter" {
+		wantGood = "[x0]"
+	}
+	errs := make([]error, len(cs.Routes))
+	var wg sync.WaitGroup
+	start := make(chan struct{})
+	for g, route := range cs.Routes {
+		wg.Add(1)
+		go func(g int, route string) {
+			defer wg.Done()
+			<-start
+			ctx := pongo2.Context{"part": "/part.tpl", "n": 0}
+			var tpl *pongo2.Template
+			var cerr error
+			switch route {
+			case "FromString":
+				tpl, cerr = set.FromString(good)
+			case "FromBytes":
+				tpl, cerr = set.FromBytes([]byte(good))
+			case "FromFile":
+				tpl, cerr = set.FromFile("/good.tpl")
+			case "FromCache":
+				tpl, cerr = set.FromCache("/good.tpl")
+			case "Render":
+				out, rerr := set.RenderTemplateString(good, ctx)
+				if rerr != nil || out != wantGood {
+					errs[g] = fmt.Errorf("RenderTemplateString of a template without the banned name: %q, %v", out, rerr)
+				}
+				return
+			case "bad-FromString":
+				if _, berr := set.FromString("A" + use + "Z"); berr == nil {
+					errs[g] = fmt.Errorf("a template using the banned %s %q compiled (FromString, while other goroutines create templates)", cs.Kind, name)
+				}
+				return
+			case "bad-FromFile":
+				if _, berr := set.FromFile("/bad.tpl"); berr == nil {
+					errs[g] = fmt.Errorf("a template using the banned %s %q compiled (FromFile, while other goroutines create templates)", cs.Kind, name)
+				}
+				return
+			case "bad-lazy":
+				btpl, berr := set.FromString("[{% include part %}]")
+				if berr != nil {
+					errs[g] = berr
+					return
+				}
+				if out, xerr := btpl.Execute(pongo2.Context{"part": "/badpart.tpl"}); xerr == nil {
+					errs[g] = fmt.Errorf("a lazily included file using the banned %s %q rendered %q", cs.Kind, name, out)
+				}
+				return
+			}
+			if cerr != nil {
+				errs[g] = fmt.Errorf("%s of a template without the banned name: %v", route, cerr)
+				return
+			}
+			if out, xerr := tpl.Execute(ctx); xerr != nil || out != wantGood {
+				errs[g] = fmt.Errorf("%s: rendered %q, %v; want %q", route, out, xerr, wantGood)
+			}
+		}(g, route)
+	}
+	close(start)
+	wg.Wait()
+	for _, e := range errs {
+		if e != nil {
+			return e
+		}
+	}
+	// frozen: a further ban is refused and changes nothing
+	if cs.Kind == "filter" {
+		err = set.BanFilter("lower")
+	} else {
+		err = set.BanTag("templatetag")
+	}
+	if err == nil {
+		return fmt.Errorf("a ban after %d goroutines had created templates was accepted", len(cs.Routes))
+	}
+	if _, perr := set.FromString(other); perr != nil {
+		return fmt.Errorf("the refused ban took effect: %v", perr)
+	}
+	if _, perr := set.FromString(use); perr == nil {
+		return fmt.Errorf("the banned %s %q compiles after the concurrent phase", cs.Kind, name)
+	}
+	r.NonTrivial(fmt.Sprint(*cs))
+	return nil
+}
+
+var _ = register(&propSpec{
+	ID:   "C03.creators",
+	Rule: "a set with one ban (tag or filter) whose first templates are created by 2-8 goroutines at once behind a barrier, each by one route (FromString, FromBytes, FromFile, FromCache, RenderTemplateString on a template that does not use the banned name and includes a file statically or by a computed name; FromString / FromFile / a lazy include of a template that uses it): the ban holds in every goroutine, everything else works, afterwards a further ban is refused and changes nothing. Run under the race detector as well: a report in the engine's own frames is a violation. Non-trivial: every case.",
+	Gen: func(t *rapid.T) any {
+		cs := &c03Creators{Kind: pick(t, "kind", []string{"tag", "filter"}), Lazy: drawBool(t, "lazy")}
+		for n := drawInt(t, 2, 8, "g"); n > 0; n-- {
+			cs.Routes = append(cs.Routes, pick(t, "route", []string{"FromString", "FromBytes", "FromFile", "FromCache", "Render", "bad-FromString", "bad-FromFile", "bad-lazy"}))
+		}
+		return cs
+	},
+	New:   func() any { return &c03Creators{} },
+	Check: checkC03Creators,
+})
+
+func TestC03Creators(t *testing.T) { runProp(t, "C03.creators") }
